@@ -173,25 +173,40 @@ def run_case(ck, desc):
         # wrong schedule length is rejected
         for special in (1, 0):
             if special != nt:
-                fresh, _, _, _, _ = sim.build(desc)
+                fresh, _, _, _, _ = sim.build(dict(desc, reused=False))
                 for form in (np.full(special, desc["p_f"]), [desc["p_f"]] * special):
                     try:
                         with np.errstate(all="ignore"):
                             fresh.simulate(t.copy(), form)
                     except Exception as e:  # noqa: BLE001
                         ck.count(f"wrong_length_rejected.{type(e).__name__}")
+                        _still_unsimulated(ck, desc, fresh, f"rejected schedule of length {special}")
+                        fresh, _, _, _, _ = sim.build(dict(desc, reused=False))
                     else:
                         ck.violation("schedule-length-mismatch-rejected", {"len_schedule": special, "len_time": nt, "container": type(form).__name__}, desc)
         bad = max(0, nt + desc["bad_len"])
         if bad != nt:
-            fresh, _, _, _, _ = sim.build(desc)
+            fresh, _, _, _, _ = sim.build(dict(desc, reused=False))
             try:
                 with np.errstate(all="ignore"):
                     fresh.simulate(t.copy(), np.full(bad, desc["p_f"]))
             except Exception as e:  # noqa: BLE001
                 ck.count(f"wrong_length_rejected.{type(e).__name__}")
+                _still_unsimulated(ck, desc, fresh, "rejected schedule of another length")
             else:
                 ck.violation("schedule-length-mismatch-rejected", {"len_schedule": bad, "len_time": nt}, desc)
+        # a simulate that fails for another reason (schedule of the right length far off the table)
+        # has not simulated anything either
+        fresh, _, _, _, _ = sim.build(dict(desc, reused=False))
+        try:
+            with np.errstate(all="ignore"), warnings.catch_warnings():
+                warnings.simplefilter("ignore")
+                fresh.simulate(t.copy(), np.full(nt, 1e7))
+        except Exception as e:  # noqa: BLE001
+            ck.count(f"off_table_schedule_raised.{type(e).__name__}")
+            _still_unsimulated(ck, desc, fresh, "simulate that raised on a schedule off the table")
+        else:
+            ck.count("off_table_schedule_accepted(no claim)")
     # recovery / interpolator before any simulation raise
     K = IdealReservoir if desc["cls"] == "ideal" else SinglePhaseReservoir
     for name in ("recovery_factor", "recovery_factor_interpolator"):
@@ -205,6 +220,19 @@ def run_case(ck, desc):
     R = m_i - float(np.min(pp1))
     nontrivial = bool(R > 0 and np.max(np.max(pp1, axis=1) - np.min(pp1, axis=1)) > 1e-3 * R)
     return nontrivial, {"nt": nt, "shift": c, "dyadic": desc["dyadic"], "rf_last": rf1[-1]}
+
+
+def _still_unsimulated(ck, desc, obj, why):
+    """No simulation has run on `obj` (its only simulate call raised): every recovery request raises."""
+    for name, kw in (("recovery_factor", {}), ("recovery_factor", {"density": True}), ("recovery_factor_interpolator", {})):
+        try:
+            with np.errstate(all="ignore"), warnings.catch_warnings():
+                warnings.simplefilter("ignore")
+                getattr(obj, name)(**kw)
+        except Exception as e:  # noqa: BLE001
+            ck.count(f"before_simulate_raised.after_failed_simulate.{type(e).__name__}")
+        else:
+            ck.violation("error-before-simulate", {"method": name, "kwargs": kw, "object_state": why}, desc)
 
 
 def _dyadic_probe(p):
